@@ -463,7 +463,7 @@ def message_identity(ctx):
                     continue
                 n += 1
                 at = b.prov.operand_atoms(op, interproc=False)
-                own = atom_has_field(at, "target_id", "TargetActorHelper")
+                own = atom_has_field(b.prov.operand_atoms(op), "target_id", "TargetActorHelper")   # (through an accessor such as `self.id()`)
                 foreign = atom_has_field(at, "dependencies", "TargetActorHelper") or any(a[0] == "field" and path_ends(a[1], "ActorInputMessage") for a in at) or \
                     atom_has_field(at, "unavailable_dependencies", "TargetActorHelper")
                 ctx.check(own and not foreign, f"{short(b.name)}/{variant}@{[s_[0] for s_ in sites].index(bb)}", [site(b, bb)],
@@ -478,7 +478,7 @@ def message_identity(ctx):
                 if op is None:
                     continue
                 n += 1
-                at = b.prov.operand_atoms(op, interproc=False)
+                at = b.prov.operand_atoms(op)   # (through an accessor such as `self.actor_id()`)
                 ctx.check(atom_has_field(at, "target_id", "TargetActorHelper") and "Target" in atom_aggs(at, "ActorId"), f"{short(b.name)}/{variant}@{[s_[0] for s_ in sites].index(bb)}", [site(b, bb)],
                           f"a {variant} sent to a dependency does not name the sending actor as requester: the dependency's answer goes elsewhere", props=["C04"])
     ctx.need(n >= 4, "constructions of protocol messages carrying an identity")
